@@ -18,6 +18,10 @@ func main() {
 		core.ChildMain()
 		return
 	}
+	if len(os.Args) >= 2 && os.Args[1] == "__c13io" {
+		c13IOChild()
+		return
+	}
 	if len(os.Args) < 2 {
 		usage()
 	}
